@@ -19,7 +19,8 @@ job = {
                "oserror_path": null|relpath # the first deletion (unlink/rmdir) of this path raises OSError instead
               }, ... ] }
 result = {"builds": [ {"before": [[relpath, null|text], ...]   (scandir pre-order: the order the OS lists entries),
-                       "trace": [[op, relpath] | ["write", relpath, text], ...],
+                       "trace": [[op, relpath] | ["write", relpath, text] | ["replace", relpath, text], ...],
+                                 (os.replace/os.rename(src, dst) = ["replace", dst, bytes of src], ["unlink", src])
                        "after": [[relpath, null|text], ...],
                        "stage": "header"|"cert"|"lex"|"build"|"fs"|"done", "exc": null|[class, msg],
                        "facts": {... header facts and the compiled outputs captured from the real run ...}} ]}
@@ -114,12 +115,30 @@ _wrap_simple("rmdir", "rmdir", True)
 
 
 def _wrap_two(name):
+    """os.rename / os.replace of a regular file inside the output directory = the two mutations of Model/FS.v rename_ops:
+    ["replace", dst, <bytes of src>] (dst atomically becomes a file with these bytes) and ["unlink", src].  The kernel does
+    both in one step, so an injected crash that falls on either half is raised after the call returned (both halves done).
+    Anything else (a directory, a name outside the output directory) stays UNMODELLED."""
     orig = getattr(os, name)
 
     def w(src, dst, *a, **k):
-        if T.on and (T.rel(src) is not None or T.rel(dst) is not None):
-            T.trace.append(["UNMODELLED-" + name, str(T.rel(src)), str(T.rel(dst))])
-        return orig(src, dst, *a, **k)
+        if not T.on:
+            return orig(src, dst, *a, **k)
+        rs, rd = T.rel(src, k.get("src_dir_fd")), T.rel(dst, k.get("dst_dir_fd"))
+        if rs is None and rd is None:
+            return orig(src, dst, *a, **k)
+        real_src = os.path.join(T.root, rs) if rs not in (None, ".") else None
+        if rs is None or rd is None or real_src is None or not os.path.isfile(real_src) or os.path.islink(real_src):
+            T.trace.append(["UNMODELLED-" + name, str(rs), str(rd)])
+            return orig(src, dst, *a, **k)
+        with _orig_open(real_src, "rb") as g:
+            data = g.read()
+        res = orig(src, dst, *a, **k)
+        c1 = T.did("replace", rd, data.decode("utf-8", "surrogateescape"))
+        c2 = T.did("unlink", rs)
+        if c1 or c2:
+            raise KeyboardInterrupt(f"injected crash after {name} (mutations {T.n_mut - 1}, {T.n_mut})")
+        return res
     setattr(os, name, w)
 
 
